@@ -61,8 +61,18 @@ fn one_pair<CS: BbsCiphersuite>(
     rep.eval(ck, 1);
     let dcm_arg: Option<&[Vec<u8>]> = if cm.is_some() { Some(&dcm) } else { None };
     let dci_arg: Option<&[usize]> = if cm.is_some() { Some(dci) } else { None };
+    // the proof object is first offered under another key and another header (refused), then honestly
+    if c.seed % 2 == 0 {
+        let other_pk = BBSplusPublicKey(pk.0 + bls12_381_plus::G2Projective::GENERATOR);
+        let _ = proof.blind_proof_verify(&other_pk, header, ph, Some(l), Some(&dm), dcm_arg, Some(di), dci_arg);
+        let _ = proof.blind_proof_verify(pk, Some(b"another header"), ph, Some(l), Some(&dm), dcm_arg, Some(di), dci_arg);
+        rep.class("object-reused-after-refusals");
+    }
     if let Err(e) = proof.blind_proof_verify(pk, header, ph, Some(l), Some(&dm), dcm_arg, Some(di), dci_arg) {
         return rep.fail(ck, "blind-proof-verify-failed", format!("blind_proof_verify of a fresh proof: {:?}", e), cj());
+    }
+    if let Err(e) = proof.blind_proof_verify(pk, header, ph, Some(l), Some(&dm), dcm_arg, Some(di), dci_arg) {
+        return rep.fail(ck, "blind-proof-verify-failed:second-call", format!("the same proof object verified a second time: {:?}", e), cj());
     }
     // L = 0 may be spelled None
     if l == 0 {
